@@ -257,6 +257,10 @@ func (fe *FuncEnc) inlineCall(v ssa.Value, callee *ssa.Function, st *State, args
 	sub.blockWrites = map[*ssa.BasicBlock]map[string]bool{}
 	sub.recording = fe.recording
 	sub.relevant = fe.relevant
+	sub.verTop = fe.verTop
+	sub.guardedVals = fe.guardedVals
+	sub.ghostSorts = fe.ghostSorts
+	sub.blockTargets = map[*ssa.BasicBlock]map[string][]ssa.Value{}
 	sub.inlineDepth = fe.inlineDepth + 1
 	sub.inlineParent = fe
 	sub.inlineName = fe.fnName()
@@ -419,6 +423,9 @@ func (fe *FuncEnc) builtin(v ssa.Value, b *ssa.Builtin, c *ssa.CallCommon, st *S
 		}
 	case "delete":
 		mt := c.Args[0].Type().Underlying().(*types.Map)
+		if lock, ok := fe.guardedVals[args[0]]; ok {
+			fe.oblige(st, "guard", "mapdelete", "(= "+fe.lockHeld(st, lock)+" 2)", pos, "guarded map is updated with its lock held exclusively")
+		}
 		fe.curTarget = c.Args[0]
 		fe.mapStore(st, mt, args[0], args[1], "", false)
 		fe.curTarget = nil
